@@ -61,6 +61,10 @@ class Inliner:
             value = value.elts[d.slot[0]]
         elif d.kind != "assign":
             return None
+        elif isinstance(d.stmt, ast.Assign) and len(d.stmt.targets) > 1:
+            # chained assignment  self.a = b = expr : the name b holds expr
+            if not any(isinstance(t, ast.Name) and t.id == name.id for t in d.stmt.targets):
+                return None
         elif not (isinstance(d.stmt, ast.Assign) and len(d.stmt.targets) == 1):
             return None
         elif isinstance(d.stmt.targets[0], (ast.Tuple, ast.List)):
@@ -73,8 +77,14 @@ class Inliner:
         env_use = self._env_at(name)
         if env_use is None:
             return None
+        bound_inside = set()
         for y in ast.walk(value):
-            if isinstance(y, ast.Name) and isinstance(y.ctx, ast.Load):
+            if isinstance(y, ast.Lambda):
+                bound_inside |= {a.arg for a in y.args.args + y.args.kwonlyargs}
+            elif isinstance(y, ast.comprehension):
+                bound_inside |= {t.id for t in ast.walk(y.target) if isinstance(t, ast.Name)}
+        for y in ast.walk(value):
+            if isinstance(y, ast.Name) and isinstance(y.ctx, ast.Load) and y.id not in bound_inside:
                 at_def = self.rd.defs_of(y)
                 at_use = env_use.get(y.id, frozenset())
                 if y.id == name.id:
@@ -89,8 +99,11 @@ class Inliner:
             if v is not None:
                 return self.expand(v, depth + 1)
             c = copy.copy(e)
-            self.orig[id(c)] = self.orig.get(id(e), e)
+            o = self.orig.get(id(e), e)
+            self.orig[id(c)] = o
             self._held.append(c)
+            if id(o) in self.rd.use_defs:
+                self.rd.use_defs[id(c)] = self.rd.use_defs[id(o)]  # the copy answers defs_of / derives like the original
             return c
         if not isinstance(e, ast.AST):
             return e
